@@ -72,7 +72,9 @@ type pkgInfo struct {
 	typeErr []types.Error
 }
 
-func loadPkg(dir string) (*pkgInfo, error) {
+func loadPkg(dir string) (*pkgInfo, error) { return loadPkgWith(dir, failImporter{}) }
+
+func loadPkgWith(dir string, imp types.Importer) (*pkgInfo, error) {
 	p := &pkgInfo{dir: dir, fset: token.NewFileSet(), src: map[string][]byte{}}
 	filter := func(fi os.FileInfo) bool {
 		n := fi.Name()
@@ -111,7 +113,7 @@ func loadPkg(dir string) (*pkgInfo, error) {
 		Uses:   map[*ast.Ident]types.Object{},
 		Scopes: map[ast.Node]*types.Scope{},
 	}
-	conf := types.Config{Importer: failImporter{}, FakeImportC: true, Error: func(e error) {
+	conf := types.Config{Importer: imp, FakeImportC: true, Error: func(e error) {
 		if te, ok := e.(types.Error); ok {
 			p.typeErr = append(p.typeErr, te)
 		}
@@ -161,15 +163,16 @@ func (k kind) String() string {
 // per-function translation context
 
 type ctx struct {
-	p       *pkgInfo
-	fn      *ast.FuncDecl
-	sb      strings.Builder
-	notes   []string
-	tables  *tableSet
-	safeIdx map[types.Object]int64 // counted-loop variable -> exclusive constant upper bound
-	intrins map[string]bool
-	okErr   []ast.Node // nodes inside which type errors are expected (intrinsic calls)
-	binders map[string]bool
+	p           *pkgInfo
+	fn          *ast.FuncDecl
+	sb          strings.Builder
+	notes       []string
+	tables      *tableSet
+	safeIdx     map[types.Object]int64 // counted-loop variable -> exclusive constant upper bound
+	intrins     map[string]bool
+	okErr       []ast.Node // nodes inside which type errors are expected (intrinsic calls)
+	binders     map[string]bool
+	errShadowOK bool // monadic mode: error variables never appear by name in the output
 }
 
 type tableSet struct {
@@ -232,7 +235,7 @@ var coqReserved = map[string]bool{
 	"match": true, "mod": true, "Prop": true, "return": true, "Set": true, "then": true, "Type": true,
 	"using": true, "where": true, "with": true, "SProp": true, "by": true, "true": true, "false": true,
 	"nil": true, "cons": true, "pair": true, "fst": true, "snd": true, "negb": true, "andb": true, "orb": true,
-	"sw_tag": true,
+	"sw_tag": true, "res": true, "Ok": true, "Err": true, "Panic": true, "fuel": true, "tt": true, "unit": true, "list": true, "Go": true,
 }
 
 func coqName(s string) string {
@@ -1282,6 +1285,9 @@ func (c *ctx) checkNames() {
 		if !isVar || id.Name == "_" {
 			return true
 		}
+		if c.errShadowOK && isErrorType(v.Type()) {
+			return true
+		}
 		if v.Parent() != nil && v.Parent().Parent() != nil {
 			if _, other := v.Parent().Parent().LookupParent(id.Name, id.Pos()); other != nil && other.Pkg() != nil {
 				c.fail(id, "declaration of `%s` shadows another declaration at %s (unsupported: variables are identified by name)", id.Name, c.p.fset.Position(other.Pos()))
@@ -1457,6 +1463,7 @@ func main() {
 	repo := flag.String("repo", "/repo", "repository root")
 	out := flag.String("out", "/verif/coq/theories/Gen/Kernels.v", "output file")
 	funcs := flag.String("funcs", "", "for the self-test only: comma-separated dir:func list replacing the built-in kernel list")
+	no2 := flag.Bool("no2", false, "do not write Kernels2.v (monadic mode)")
 	flag.Parse()
 	if *funcs != "" {
 		kernels = nil
@@ -1521,6 +1528,30 @@ func main() {
 		fmt.Fprintf(os.Stderr, "gotrans: %d kernel(s) could not be translated; %s left untouched (the tie to the source is BROKEN)\n", len(errs), *out)
 		os.Exit(1)
 	}
+	out2 := filepath.Join(filepath.Dir(*out), "Kernels2.v")
+	text2, errs2 := "", []string(nil)
+	if *funcs == "" && !*no2 {
+		text2, errs2 = buildKernels2(*repo, kernels2)
+	}
+	if len(errs2) > 0 {
+		for _, e := range errs2 {
+			fmt.Fprintln(os.Stderr, "gotrans:", e)
+		}
+		fmt.Fprintf(os.Stderr, "gotrans: %d function(s) could not be translated; %s and %s left untouched (the tie to the source is BROKEN)\n", len(errs2), *out, out2)
+		os.Exit(1)
+	}
+	changed := 0
+	if text2 != "" {
+		old2, _ := os.ReadFile(out2)
+		if !bytes.Equal(old2, []byte(text2)) {
+			if err := os.WriteFile(out2, []byte(text2), 0o644); err != nil {
+				fmt.Fprintln(os.Stderr, "gotrans:", err)
+				os.Exit(2)
+			}
+			fmt.Println("updated", out2)
+			changed++
+		}
+	}
 	var sb strings.Builder
 	sb.WriteString(strings.ReplaceAll(header, "%%", "%"))
 	if intrins["le_uint32"] {
@@ -1533,7 +1564,7 @@ func main() {
 	sb.WriteString(strings.Join(defs, "\n"))
 	old, _ := os.ReadFile(*out)
 	if bytes.Equal(old, []byte(sb.String())) {
-		fmt.Println("gotrans: 0 file(s) changed")
+		fmt.Printf("gotrans: %d file(s) changed\n", changed)
 		return
 	}
 	if err := os.WriteFile(*out, []byte(sb.String()), 0o644); err != nil {
@@ -1541,5 +1572,5 @@ func main() {
 		os.Exit(2)
 	}
 	fmt.Println("updated", *out)
-	fmt.Println("gotrans: 1 file(s) changed")
+	fmt.Printf("gotrans: %d file(s) changed\n", changed+1)
 }
